@@ -23,7 +23,8 @@ type c11Val struct {
 	S      [3]string         `json:"s"` // LogID/Caller/Addr | StatusMessage | message
 	I      int32             `json:"i"` // StatusCode | type id
 	Extra  map[string]string `json:"extra,omitempty"`
-	HasMap bool              `json:"has_map"` // distinguishes nil from empty
+	HasMap bool              `json:"has_map"`                   // distinguishes nil from empty
+	Big    int               `json:"big_map_entries,omitempty"` // a generated map of this many entries (keys k<i>, values v<i>)
 }
 
 type c11Read struct {
@@ -50,6 +51,13 @@ var c11PrevResp = func() []byte {
 func (v c11Val) extra() map[string]string {
 	if !v.HasMap {
 		return nil
+	}
+	if v.Big > 0 {
+		m := make(map[string]string, v.Big)
+		for i := 0; i < v.Big; i++ {
+			m[fmt.Sprintf("k%d", i)] = fmt.Sprintf("v%d", i%7)
+		}
+		return m
 	}
 	if v.Extra == nil {
 		return map[string]string{}
@@ -157,6 +165,19 @@ func c11Write(c *mc.Ctx, v c11Val) {
 			bad("blength", "FastMarshal produced %d bytes, BLength() = %d", len(fm), bl)
 			return
 		}
+		if e, isErr := m.(error); isErr && !v.Nil {
+			// rendering an error is a read-only operation: the encoding afterwards is the same
+			_ = e.Error()
+			_ = fmt.Sprint(e)
+			if ae, ok := m.(*thrift.ApplicationException); ok && (ae.Msg() != v.S[0] || ae.TypeID() != v.I) {
+				bad("error-changes-value", "after Error() the exception reports message %q type id %d, it was built with %q %d", ae.Msg(), ae.TypeID(), v.S[0], v.I)
+				return
+			}
+			if bl2 := m.BLength(); bl2 != bl || !bytes.Equal(thrift.FastMarshal(m), buf[:n]) {
+				bad("error-changes-value", "after Error() BLength() = %d (before %d) and the encoding is %s (before %s)", bl2, bl, mc.Hex(thrift.FastMarshal(m)), mc.Hex(buf[:n]))
+				return
+			}
+		}
 		got, dn, ok := ref.Decode(buf[:n], ref.STRUCT)
 		if !ok || dn != n {
 			bad("not-wellformed", "the written bytes are not one well-formed struct of %d bytes: %s", n, mc.Hex(buf[:n]))
@@ -236,7 +257,30 @@ func c11ReadOne(c *mc.Ctx, k c11Read, in []byte) {
 			return
 		}
 		if w.HasMap && !(len(got.Extra) == len(w.extra()) && (len(got.Extra) == 0 || reflect.DeepEqual(got.Extra, w.extra()))) {
+			if w.Big > 0 {
+				bad("map", "map of %d entries read as a map of %d entries", w.Big, len(got.Extra))
+				return
+			}
 			bad("map", "map read as %v, want %v", got.Extra, w.extra())
+			return
+		}
+		if w.HasMap && w.Big == 0 {
+			// the decoded map belongs to the caller: adding to it must not show up in a value decoded later
+			got.Extra["verif-added-by-the-caller"] = "x"
+			in2, _ := hex.DecodeString(inHex)
+			var m2 map[string]string
+			if k.Kind == "base" {
+				var y base.Base
+				y.FastRead(in2)
+				m2 = y.Extra
+			} else {
+				var y base.BaseResp
+				y.FastRead(in2)
+				m2 = y.Extra
+			}
+			if _, leaked := m2["verif-added-by-the-caller"]; leaked || len(m2) != len(w.extra()) {
+				bad("map-shared", "an entry the caller added to a decoded map appears in the map of a value decoded afterwards (%d entries, want %d)", len(m2), len(w.extra()))
+			}
 		}
 	})
 	if pi != nil {
@@ -293,7 +337,22 @@ func c11Run(c *mc.Ctx) {
 			}
 		}
 	}
-	c.Done("write side: Base/BaseResp/ApplicationException over 4 string values per field x 6 i32 x nil/empty/1/2/empty-key maps, nil receiver; BLength == FastWrite == FastWriteNocopy(nil) == FastMarshal; bytes parsed order-insensitively")
+	for _, kind := range []string{"base", "baseresp"} {
+		for _, n := range []int{255, 256, 65535, 65536, 65537, 70001} {
+			if !c.Mine() {
+				continue
+			}
+			v := c11Val{Kind: kind, S: [3]string{"l", "", ""}, HasMap: true, Big: n}
+			if kind == "baseresp" {
+				v.I = 3
+			}
+			c.Distinct("wbig", kind, n)
+			c11Write(c, v)
+			enc := thrift.FastMarshal(c11Codec(v))
+			c11ReadOne(c, c11Read{Kind: kind, StructN: len(enc), Want: v, Desc: fmt.Sprintf("map of %d entries", n)}, append(enc, 0x7e))
+		}
+	}
+	c.Done("write side: Base/BaseResp/ApplicationException over 4 string values per field x 6 i32 x nil/empty/1/2/empty-key maps, maps of 255..70001 entries (written, parsed by the reference, read back), nil receiver; Error() is read-only; BLength == FastWrite == FastWriteNocopy(nil) == FastMarshal; bytes parsed order-insensitively")
 	// ---- read side ----
 	var unknowns []ref.Value
 	_ = th
